@@ -12,7 +12,7 @@ RULE = ("cases = pairs (smaller, bigger) of NFAs over letters {0,1} (some famili
         "CLI does; streams: corpus (triggers of D5, D6, boundary cases), all pairs of NFAs with <=2 states and <=2 edges over 2 letters "
         "(up to the swap of the two states), a seeded sample of <=2-state/<=4-edge pairs, targeted families (epsilon in L, several "
         "start states, incomparable macro-states, one-sided symbols, unreachable/dead states, quotient and near-miss pairs, "
-        "disjoint numbering), random pairs up to 4+4 states; a case is non-trivial when L(smaller) is non-empty (distinct by case text)")
+        "disjoint numbering, operands that are two copies of one automaton (shared transition table) with their own start/final states), random pairs up to 4+4 states; a case is non-trivial when L(smaller) is non-empty (distinct by case text)")
 TRUSTED_BASE = [
     "Coq 8.16.1 kernel (coqc, full .vo build); vm_compute only in the *_refuted witnesses and Examples; no native_compute",
     "extraction: Require Extraction + ExtrOcamlBasic only; N, positive, nat stay inductive; no Extract Constant of our own; OCaml 4.13.1",
@@ -74,6 +74,20 @@ def cases(rng, tier):
         cs.append((line(rng, a, b), fam))
     for _ in range(400 if tier == "quick" else 8000):
         a, b = gen_nfa.incomparable_macro(rng); cs.append((line(rng, a, b), "incomparable"))
+    for _ in range(1500 if tier == "quick" else 20000):
+        # both operands over ONE edge list (the driver builds them as two copies of one automaton: shared copy-on-write table) with their own
+        # start and final states
+        base = gen.rand_nfa_sized(rng, 4, 8, rng.choice([2, 2, 3]))
+        if not base.edges: continue
+        st = sorted(base.states())
+        a = base.copy()
+        b = base.copy()
+        r = rng.random()
+        if r < 0.35: a.starts = a.starts + [rng.choice(st)]                       # the copy got a further start state
+        elif r < 0.55: b.starts = b.starts + [rng.choice(st)]
+        elif r < 0.75: a.finals = [q for q in st if rng.random() < 0.4]; b.finals = [q for q in st if rng.random() < 0.4]
+        else: a.starts = [q for q in st if rng.random() < 0.4]; b.starts = [q for q in st if rng.random() < 0.4]; b.finals = b.finals + [rng.choice(st)]
+        cs.append(("incl F %s %s" % (a.fmt(), b.fmt()), "shared_table"))
     n = 4000 if tier == "quick" else 80000
     for _ in range(n):
         ns = rng.choice([2, 2, 3])
